@@ -226,3 +226,13 @@ def wsum(hashes, n, m, c, w):
 
 def sat32(v):
     return v if v <= 4294967295 else 4294967295
+
+
+def wsum_range(hashes, lo, hi, m, c, w):
+    """weight hashes[lo:hi] put on cell c"""
+    return sum((w if hashes[j] % m == c else 0) for j in range(lo, hi))
+
+
+def nonzero_cells(arr, n):
+    """number of cells of arr[0:n] that are > 0"""
+    return sum((1 if arr[i] > 0 else 0) for i in range(0, n))
